@@ -1,7 +1,133 @@
-import Tickit.Model.RBFlush
+import Tickit.Proof.RBFlush
 /-
   C04 — flushing a render buffer reproduces its content on the terminal exactly once.
-  (theorems follow)
+
+  The model (Model/RBFlush.lean) mirrors the code *with* the two repairs fixes/C04_flush_wide_cut.patch and
+  fixes/C04_linechars_fallback.patch; the code before them is kept (`textReqsOld`, `linemaskToCharOld`) for the
+  counterexample theorems.  One known finding remains (a CHAR cell holding a code point that is not one column
+  wide): `flush_spec` carries the hypothesis that excludes exactly that.
 -/
 namespace Tickit.Props.C04
+open Tickit Tickit.RB Tickit.RBFlush
+
+/-! ## Line cells: the glyph has the arms of the mask -/
+
+/-- The statement about a glyph table: for every mask 1 … 255 the glyph is a box-drawing character with an arm in
+    exactly the directions in which the mask has a style, and it is *the* character with exactly the mask's four
+    styles whenever Unicode has such a character. -/
+def GlyphArms (table : Array Nat) : Prop :=
+  ∀ mask, 1 ≤ mask → mask < 256 →
+    ∃ a : Arms, armsOf (table.getD mask 0) = some a ∧
+      ((a.1 ≠ 0 ↔ (maskArms mask).1 ≠ 0) ∧ (a.2.1 ≠ 0 ↔ (maskArms mask).2.1 ≠ 0) ∧
+       (a.2.2.1 ≠ 0 ↔ (maskArms mask).2.2.1 ≠ 0) ∧ (a.2.2.2 ≠ 0 ↔ (maskArms mask).2.2.2 ≠ 0)) ∧
+      (∀ cp, armsOf cp = some (maskArms mask) → table.getD mask 0 = cp)
+
+/-- The boolean form decided over the whole table implies the statement. -/
+theorem glyphArms_of_glyphOK (table : Array Nat)
+    (h : ∀ m, m < 256 → 1 ≤ m → glyphOK m (table.getD m 0) = true) : GlyphArms table := by
+  intro mask h1 h2
+  have hk := h mask h2 h1
+  unfold glyphOK at hk
+  split at hk
+  · cases hk
+  · rename_i a ha
+    rw [Bool.and_eq_true] at hk
+    obtain ⟨hd, hex⟩ := hk
+    refine ⟨a, ha, ?_, ?_⟩
+    · unfold sameDirs at hd
+      simp only [Bool.and_eq_true, beq_iff_eq, bne_iff_ne, ne_eq] at hd
+      obtain ⟨⟨⟨d1, d2⟩, d3⟩, d4⟩ := hd
+      refine ⟨?_, ?_, ?_, ?_⟩
+      · by_cases x : a.1 = 0 <;> by_cases y : (maskArms mask).1 = 0 <;> simp_all
+      · by_cases x : a.2.1 = 0 <;> by_cases y : (maskArms mask).2.1 = 0 <;> simp_all
+      · by_cases x : a.2.2.1 = 0 <;> by_cases y : (maskArms mask).2.2.1 = 0 <;> simp_all
+      · by_cases x : a.2.2.2 = 0 <;> by_cases y : (maskArms mask).2.2.2 = 0 <;> simp_all
+    · intro cp hcp
+      have he := hasExact_of_armsOf hcp
+      rw [he] at hex
+      simp only [Bool.not_true, Bool.false_or, beq_iff_eq] at hex
+      exact armsOf_inj (by rw [ha, hex]) hcp
+
+/-- **glyph_arms**: the table of the working tree (`src/linechars.inc`, regenerated into `Gen.LineChars` on every
+    run) satisfies the statement — decided by the kernel over all 255 masks. -/
+theorem glyph_arms : GlyphArms Tickit.Gen.LineChars.linemaskToChar :=
+  glyphArms_of_glyphOK _ (by decide +kernel)
+
+/-- Non-vacuity: mask 0x12 (north double, south single) has no exact character; the table gives U+2502 (both arms). -/
+example : Tickit.Gen.LineChars.linemaskToChar.getD 0x12 0 = 0x2502 ∧ maskArms 0x12 = (2, 0, 1, 0) ∧
+    armsOf 0x2502 = some (1, 0, 1, 0) := by decide +kernel
+
+/-- `src/linechars.inc` before the repair of `linechars.inc.PL` (fallback `$mask & 0xAA`). -/
+def linemaskToCharOld : Array Nat := #[
+  0x0000, 0x2575, 0x2575, 0x2579, 0x2576, 0x2514, 0x2559, 0x2516, 0x2576, 0x2558, 0x255a, 0x255a, 0x257a, 0x2515, 0x255a, 0x2517,
+  0x2577, 0x2502, 0x2575, 0x257f, 0x250c, 0x251c, 0x2575, 0x251e, 0x2552, 0x255e, 0x255a, 0x255a, 0x250d, 0x251d, 0x255a, 0x2521,
+  0x2577, 0x2577, 0x2551, 0x2551, 0x2553, 0x2577, 0x255f, 0x2551, 0x2554, 0x2554, 0x2560, 0x2560, 0x2554, 0x2554, 0x2560, 0x2560,
+  0x257b, 0x257d, 0x2551, 0x2503, 0x250e, 0x251f, 0x2551, 0x2520, 0x2554, 0x2554, 0x2560, 0x2560, 0x250f, 0x2522, 0x2560, 0x2523,
+  0x2574, 0x2518, 0x255c, 0x251a, 0x2500, 0x2534, 0x2568, 0x2538, 0x2576, 0x2576, 0x255a, 0x255a, 0x257c, 0x2536, 0x255a, 0x253a,
+  0x2510, 0x2524, 0x2575, 0x2526, 0x252c, 0x253c, 0x2575, 0x2540, 0x2576, 0x2576, 0x255a, 0x255a, 0x252e, 0x253e, 0x255a, 0x2544,
+  0x2556, 0x2577, 0x2562, 0x2551, 0x2565, 0x2577, 0x256b, 0x2551, 0x2554, 0x2554, 0x2560, 0x2560, 0x2554, 0x2554, 0x2560, 0x2560,
+  0x2512, 0x2527, 0x2551, 0x2528, 0x2530, 0x2541, 0x2551, 0x2542, 0x2554, 0x2554, 0x2560, 0x2560, 0x2532, 0x2546, 0x2560, 0x254a,
+  0x2574, 0x255b, 0x255d, 0x255d, 0x2574, 0x2574, 0x255d, 0x255d, 0x2550, 0x2567, 0x2569, 0x2569, 0x2550, 0x2550, 0x2569, 0x2569,
+  0x2555, 0x2561, 0x255d, 0x255d, 0x2574, 0x2574, 0x255d, 0x255d, 0x2564, 0x256a, 0x2569, 0x2569, 0x2550, 0x2550, 0x2569, 0x2569,
+  0x2557, 0x2557, 0x2563, 0x2563, 0x2557, 0x2557, 0x2563, 0x2563, 0x2566, 0x2566, 0x256c, 0x256c, 0x2566, 0x2566, 0x256c, 0x256c,
+  0x2557, 0x2557, 0x2563, 0x2563, 0x2557, 0x2557, 0x2563, 0x2563, 0x2566, 0x2566, 0x256c, 0x256c, 0x2566, 0x2566, 0x256c, 0x256c,
+  0x2578, 0x2519, 0x255d, 0x251b, 0x257e, 0x2535, 0x255d, 0x2539, 0x2550, 0x2550, 0x2569, 0x2569, 0x2501, 0x2537, 0x2569, 0x253b,
+  0x2511, 0x2525, 0x255d, 0x2529, 0x252d, 0x253d, 0x255d, 0x2543, 0x2550, 0x2550, 0x2569, 0x2569, 0x252f, 0x253f, 0x2569, 0x2547,
+  0x2557, 0x2557, 0x2563, 0x2563, 0x2557, 0x2557, 0x2563, 0x2563, 0x2566, 0x2566, 0x256c, 0x256c, 0x2566, 0x2566, 0x256c, 0x256c,
+  0x2513, 0x252a, 0x2563, 0x252b, 0x2531, 0x2545, 0x2563, 0x2549, 0x2566, 0x2566, 0x256c, 0x256c, 0x2533, 0x2548, 0x256c, 0x254b
+]
+
+/-- Counterexample (before the repair): mask 0x12 was drawn as U+2575 "light up": the south arm is lost. -/
+theorem glyph_arms_old_counterexample : ¬ GlyphArms linemaskToCharOld := by
+  intro h
+  obtain ⟨a, ha, ⟨_, _, hs, _⟩, _⟩ := h 0x12 (by omega) (by omega)
+  have h1 : armsOf (linemaskToCharOld.getD 0x12 0) = some (1, 0, 0, 0) := by decide +kernel
+  rw [h1] at ha
+  cases ha
+  exact absurd (hs.mpr (by decide +kernel)) (by decide)
+
+/-- 92 of the 255 entries were wrong before the repair. -/
+theorem glyph_arms_old_bad_count :
+    ((List.range 256).filter fun m => decide (1 ≤ m) && !glyphOK m (linemaskToCharOld.getD m 0)).length = 92 := by
+  decide +kernel
+
+/-! ## After the flush the buffer is empty and all auxiliary state is reset -/
+
+/-- **flush_resets**: whenever the flush completes, the buffer afterwards has its size, every line is a single SKIP
+    run without mask (so nothing is pending: the specification asks nothing of any terminal cell), the virtual cursor
+    is unset, translation zero, clip the whole buffer, pen empty, the save stack empty, and the depth 0 (for a buffer
+    whose depth counts its stack frames). -/
+theorem flush_resets (rb : RB) (h : (flushToTerm rb).out = .ok) :
+    let rb' := (flushToTerm rb).rb
+    rb'.lines = rb.lines ∧ rb'.cols = rb.cols ∧ IsEmpty rb' ∧ (∀ l c, want rb' l c = .keep) ∧
+    rb'.vcSet = false ∧ rb'.xlLine = 0 ∧ rb'.xlCol = 0 ∧ rb'.clip = ⟨0, 0, rb.lines, rb.cols⟩ ∧
+    rb'.pen = Pen.empty ∧ rb'.stack = [] ∧ (rb.depth = rb.stack.length → rb'.depth = 0) := by
+  have hr : (flushToTerm rb).rb = reset rb := flushWith_rb_of_ok _ rb h
+  simp only [hr]
+  refine ⟨rfl, rfl, reset_isEmpty rb, want_of_isEmpty _ (reset_isEmpty rb), rfl, rfl, rfl, rfl, rfl, rfl, ?_⟩
+  intro hd
+  simp only [reset]
+  cases hs : rb.stack with
+  | nil => simp [hs] at hd ⊢; exact hd
+  | cons f fs => simp
+
+/-- "Exactly once", second half: flushing again right away sends nothing to the terminal. -/
+theorem flush_again_silent (rb : RB) (h : (flushToTerm rb).out = .ok) :
+    (flushToTerm (flushToTerm rb).rb).reqs = [] ∧ (flushToTerm (flushToTerm rb).rb).out = .ok := by
+  have hr : (flushToTerm rb).rb = reset rb := flushWith_rb_of_ok _ rb h
+  rw [hr]
+  have : flushLines textReqs (reset rb) (reset rb).lines.toNat 0 = ([], .ok) := by
+    by_cases hl : 0 ≤ (reset rb).lines
+    · exact flushLines_empty textReqs (reset rb) (reset_isEmpty rb) (reset rb).lines.toNat 0 (by omega) (by omega)
+    · have : (reset rb).lines.toNat = 0 := by omega
+      rw [this]; rfl
+  unfold flushToTerm flushWith
+  simp only [this, and_self]
+
+/-- Non-vacuity: a 1×3 buffer holding the text "ab" at column 1 flushes (`out = ok`) with four requests. -/
+example :
+    let rb := textAt (RB.new 1 3 0 0) 0 1 [0x61, 0x62]
+    (flushToTerm rb).out = .ok ∧ (flushToTerm rb).reqs = [.goto 0 1, .setpen Pen.empty, .print [0x61, 0x62] 0 2] := by
+  decide +kernel
+
 end Tickit.Props.C04
